@@ -159,6 +159,19 @@ class Body:
             live = {p for n, p in self.dbg}
             self.dbg = [[names.get(p, n), p] if int(p.split("|")[0]) <= self.argc and p in names
                         else [n, p] for n, p in self.dbg]
+            # a *pure rename* of a local variable: same number of named locals in the same
+            # declaration order, the i-th live name is unknown to the frozen list and the i-th
+            # frozen name no longer occurs -> it is the same variable under a new name
+            fl = fz.get("locals") or []
+            idx = [k for k, (n, p) in enumerate(self.dbg)
+                   if int(p.split("|")[0]) > self.argc and not n.startswith("__")]
+            if len(idx) == len(fl):
+                live_names = {self.dbg[k][0] for k in idx}
+                frozen_names = set(fl)
+                for k, fn_ in zip(idx, fl):
+                    ln = self.dbg[k][0]
+                    if ln != fn_ and ln not in frozen_names and fn_ not in live_names:
+                        self.dbg[k] = [fn_, self.dbg[k][1]]
         self.blocks = o["blocks"]
         self._succ = None
         self._pred = None
